@@ -24,7 +24,7 @@ RULE = ('one idling session + 1-2 writer sessions issuing bursts of APPEND / STO
         'landed while the idler was parked in the middle of a notification; distinct by script')
 
 
-async def idle_case(part, m, r, script, backend='dict', end='DONE', race=None):
+async def idle_case(part, m, r, script, backend='dict', end='DONE', race=None, loose=False):
     """script: list of ['mut', session, op...] | ['release'] ; ops: append flags | store uidpos mode flags | expunge uidpos | move uidpos"""
     from pymap.imap import IMAPServer
     from .common.sched import Sched
@@ -55,7 +55,9 @@ async def idle_case(part, m, r, script, backend='dict', end='DONE', race=None):
             body = l3.msg_bytes(cid)
             cid += 1
             await writers[0].send(b'w APPEND INBOX {%d+}\r\n' % len(body) + body + b'\r\n')
-        for w in writers:
+        for wi_, w in enumerate(writers):
+            if loose and wi_ == 1:
+                continue        # a connection with nothing selected: what it delivers is claimed by nobody (maildir: the file stays in new/)
             await w.send(b'w SELECT INBOX\r\n')
         # what the idler did before IDLE: ['pre', examine?, [op, ...]] in front of the script (ops in the l3 format; refused commands and
         # `.SILENT` stores included — none of them may leave anything armed that delays or swallows what IDLE has to push)
@@ -105,6 +107,10 @@ async def idle_case(part, m, r, script, backend='dict', end='DONE', race=None):
                 return
             sh.apply(items, ['idle', 0], False)
 
+        if backend != 'dict' and loose:
+            # the idler has been polling for a while when the delivery arrives (whatever it remembers from one poll to the next is in place)
+            await asyncio.sleep(2.4)
+            await collect()
         for step in script:
             if step[0] == 'release':
                 parked = [n for n, (lab, f) in sched.parked.items() if lab == 'drain']
@@ -242,7 +248,7 @@ async def idle_case(part, m, r, script, backend='dict', end='DONE', race=None):
                 await w.eof()
             return
         raw = await a.send(end.encode() + b'\r\n')
-        if backend != 'dict' and not imapresp.tagged_safe(raw, b'i'):
+        if backend != 'dict' and not any(l.startswith(b'i ') for l in raw.split(b'\r\n')):
             await asyncio.sleep(1.2)
             raw += a.take()
         tg = imapresp.tagged(imapresp.parse(raw), b'i') if raw else None
@@ -319,8 +325,12 @@ def worker(job):
                 asyncio.run(idle_case(part, m, r, sc, 'dict', end, race))
         for k in range(maildir):
             sc = [s for s in gen_script(r) if s[0] == 'release' or s[2] in ('append', 'store')][:5] or [['mut', 0, 'append', []]]
-            with guarded(part, 'C16 idle maildir', dict(script=sc, backend='maildir')):
-                asyncio.run(idle_case(part, m, r, sc, 'maildir', 'DONE'))
+            loose = (seed + k) % 2 == 1
+            if loose:
+                # deliveries by a connection that has nothing selected, with nothing else happening afterwards
+                sc = [s if s[0] == 'release' else ['mut', 1, 'append', []] for s in sc]
+            with guarded(part, 'C16 idle maildir', dict(script=sc, backend='maildir', loose=loose)):
+                asyncio.run(idle_case(part, m, r, sc, 'maildir', 'DONE', None, loose))
     finally:
         m.close()
     return part.result()
